@@ -148,6 +148,14 @@ func (s *State) get(name string, sort Sort) Term {
 			t = s.parent.get(name, sort)
 		} else {
 			t = s.vc.declareFresh(name+"!h", sort)
+			if name == "G$clock" || strings.HasPrefix(name, "G$seq$") {
+				// the event clock never runs backwards and stays far from wrap-around
+				s.writes[name] = t
+				s.vc.assumeGlobal(mkAnd(sle(s.parent.get(name, sort), t), sle(t, bvLit(64, 1<<40))))
+				if name != "G$clock" {
+					s.vc.assumeGlobal(sle(t, s.get("G$clock", SBV64)))
+				}
+			}
 		}
 	case stHavocSome:
 		if s.mods[name] || s.mods["*"] || s.prefixHit(name) {
